@@ -664,7 +664,7 @@ class ValueMapping:
                             "its ValueMap qualifier: {1}",
                             vm._element_str(), values_extra))
             # Truncate the extra Values items
-            del values_list[len(values_extra):]
+            del values_list[valuemap_size:]
 
         # Perform data initialization of the ValueMapping object
         vm._b2v_single_dict = {}
